@@ -386,6 +386,7 @@ def run_programs(
     per_group: Dict[str, List[int]] = {}
     ws: Dict[str, set] = {}
     names: Dict[str, set] = {}
+    found: List[Tuple[int, int, Violation]] = []
     for (p, w, *_), (ev, di, viols) in zip(jobs, results):
         g = per_group.setdefault(p.group, [0, 0, 0])
         g[0] += ev
@@ -399,7 +400,9 @@ def run_programs(
                     dict(program=p.name, variant=p.variant, w=w, note=p.candidate, observed=v.what)
                 )
             else:
-                rep.violation(v)
+                found.append((p.max_ops, len(found), v))
+    for _, _, v in sorted(found, key=lambda x: x[:2]):  # the single applications (most precise witness) before the random programs
+        rep.violation(v)
     for g, (ev, di, n) in per_group.items():
         rep.add_bounded(
             f'{prop}: {g}',
